@@ -108,7 +108,7 @@ def corr_stage(scen, quick, thorough, params=None, feature=None, race=False, tim
             ctx.evaluations += ncase
             if validate and ncase:
                 rc2, mism, summ, out = vlib.run_checker(rec)
-                entry["checker"] = summ
+                entry["checker"] = {m: v for m, v in summ.items() if isinstance(v, dict) and any(x for x in v.values())}
                 if rc2 != 0:
                     ctx.violate("checker failed on records of %s: %s" % (scen, out[-800:]),
                                 dict(kind="checker-error", scenario=scen, seed=seed, output=out[-3000:]), has_input=False)
@@ -245,7 +245,8 @@ PROPS["C01"] = dict(
 )
 PROPS["C02"] = dict(
     rule="BUFK1 (see C01) including bigbuff.Range and Buffer.Range with scripted callbacks (continue/stop/panic); non-trivial = history with a "
-         "successful Rollback followed by a value read, or a Range call",
+         "successful Rollback followed by a value read, or a Range call"
+         " Scripted panics are, half of the time, runtime.Goexit from inside the callback (the deferred rollback must treat both alike).",
     level_text="Theorems (Properties/C02.v): Rollback/Commit step specifications, empty commit/rollback are error no-ops, the pending window is "
                "commit..commit+delta-1, commits are permanent under every later schedule; Range and Buffer.Range (range_loop composite): every visited value is "
                "the consecutive log entry from the entry commit point, everything visited is committed except the in-flight value of a panicking callback "
@@ -257,7 +258,7 @@ PROPS["C02"] = dict(
 )
 PROPS["C04"] = dict(
     pre_coq=[lambda: c03_pre_coq()],   # the fixed/default cleaner clauses are about the functions translated from the current source
-    rule="C04T: 5 timed scenarios (single consumer, two consumers, closing the slowest, cooldown 0, FixedBufferCleaner) on an INSTRUMENTED build; each "
+    rule="C04T: 14 timed scenarios (one / two consumers, closing the slowest with and without an already reclaimed prefix, consumers parked at the tail, cooldown 0, a cooldown reconfigured inside a window, FixedBufferCleaner with and without consumers incl. target == max, a short prefix committed and the size pushed over max inside ONE window, everything consumed under the fixed cleaner (known finding F6), sustained traffic by a consumer that keeps up: something must be reclaimed during the traffic) on an INSTRUMENTED build; each "
          "is run plain and then once per (synchronisation point hit by the scenario, k-th hit <= 3) with a delay of 2.5 cooldowns injected there "
          "(delay-bounded schedule sweep); after going quiet for 2 cooldowns + slack the settled Size/Slice must be what the model gives after the "
          "cleaner ran. non-trivial = a sweep run whose delay fired; distinct by (scenario, point, hit)",
@@ -314,7 +315,8 @@ PROPS["C13"] = dict(
     rule="K1: seeded op sequences (SrcSend/Get/Commit/Rollback/Buffer/Close/Cancel/SrcClose) run on a real Channel, outputs must equal "
          "both the implementation-level model and the cursor specification; K2: 2-4 goroutines x 3-6 ops with a concurrent feeder, "
          "history must be linearizable w.r.t. the model. non-trivial = K1 case with a successful Rollback followed by a Get that "
-         "returns a value (replay), or K2 history in which a Get returned a value; distinct by op sequence",
+         "returns a value (replay), or K2 history in which a Get returned a value; distinct by op sequence"
+         " C13WIN: the parent context is cancelled while a Get is inside its critical section (a hook context whose Err(), only ever called under the Channel mutex, cancels the parent and watches Done): Done must not close before the take.",
     stages=[corr_stage("C13K1", 2500, 6000, feature=feat_c13, seeds=3),
             corr_stage("C13K2", 1500, 4000, feature=feat_c13, seeds=3),
             corr_stage("C13WIN", 40, 300, validate=False)],
@@ -503,7 +505,8 @@ PROPS["C18"] = dict(
     rule="C18K1: seeded scripts of 0-40 plain failures then success / fatal depth 1-4 / nothing, rates <= 0 .. 2^32 ns, nil and custom contexts, cancellation "
          "never / before the first check / inside a call / inside a wait, closure re-invoked; C18F: constants, real delay function for c in 0..40 (+2^16, 2^31, "
          "MaxUint32) x 6 rates, exact twin math/rand differential, real waitDuration. non-trivial = K1 case with >= 2 calls and a cancellation point, a "
-         "consumed fatal error nested >= 2 deep, or > 32 calls; or a real delay sample with c >= 1 and non-zero delay; distinct by script shape",
+         "consumed fatal error nested >= 2 deep, or > 32 calls; or a real delay sample with c >= 1 and non-zero delay; distinct by script shape"
+         " A quarter of the base errors are NON-fatal errors whose Unwrap chain contains a fatal error (plain errors for the loop; returned unchanged when wrapped by FatalError).",
     stages=[corr_stage("C18K1", 6000, 6000, feature=feat_c18, seeds=3),
             corr_stage("C18F", 30, 60, params=None, feature=feat_c18)],
 )
@@ -544,7 +547,8 @@ PROPS["C08"] = dict(
          "load/CAS taken apart by a hook at the instrumentation point between them (decided by send_end_cas), and the monitors under a delay-bounded "
          "sweep (1.5 ms at every point of chancaster.go hit, k-th hit <= 2) of 4 scenarios (racing deregistration, late registration, both, all "
          "deregister). non-trivial = Add that returned/absorbed/panicked after modifying, Send that armed, word changed between load and CAS, round "
-         "with a racing deregistration; distinct by arguments (and sweep point)",
+         "with a racing deregistration; distinct by arguments (and sweep point)"
+         " C08K2's misuse section replays the two buffered-channel histories of known findings F7/F7b.",
     level_text="Theorems (Properties/C08.v). Word level, all 64-bit words and all deltas: Add oracle, send_begin/send_end(/cas) specs, out-of-range/"
                "unbalanced Adds panic, running-sum characterisation. Protocol level (counter abstraction + one tracked receiver, any number of "
                "senders/receivers, every schedule at lock/atomic/channel-operation granularity): no false panic, no stolen copy, ret = delivered, "
@@ -815,7 +819,8 @@ PROPS["C15"] = dict(
          "2 keys x 3 targets, panics leave the in-package registry snapshot unchanged, SubscribeCancel barrier + goroutine baseline. C15K2: concurrent "
          "publishers x keys x SubscribeCancel receivers, exactly once per live subscriber. non-trivial = >=2 deliveries with a context-guarded "
          "subscription strictly inside >=3 pending, or a cancellation of a pending guarded subscription followed by a delivery; registry case with "
-         "sub+unsub+publish and a panic; distinct by full record",
+         "sub+unsub+publish and a panic; distinct by full record"
+         " C15REG also subscribes with no / live / already cancelled contexts (a rejected duplicate must not replace the registered context) and checks that a publish blocked on SubscribeCancel subscriptions returns when their cancel functions are called.",
     stages=[corr_stage("C15K1", 2500, 6000, feature=feat_c15, seeds=3),
             corr_stage("C15REG", 2500, 5000, feature=feat_c15, seeds=2),
             corr_stage("C15K2", 100, 800, validate=False, seeds=2)],
@@ -868,7 +873,8 @@ PROPS["C10"] = dict(
          "its supplier is answered by that very execution; a function returning without resolving yields errResolveNotCalled to all its callers and "
          "nobody hangs (2 s); every call (in particular Start/StartAfter) is followed by an execution start; executions <= calls; afterwards "
          "len(e.work) == 0, library goroutines back to baseline, a fresh Call runs its own function. The per-key counts must be the counts of a "
-         "terminal state of the extracted model (exhaustive search for <= 4 calls, proved inequalities above). non-trivial as C09",
+         "terminal state of the extracted model (exhaustive search for <= 4 calls, proved inequalities above). non-trivial as C09"
+         " C10ASYNC: the work function hands resolve to a spinning goroutine and returns within nanoseconds of releasing it (1500 / 20000 batches of two coalesced callers): exactly one of the asynchronous resolve and the forced resolve-not-called takes effect - one outcome per caller, the same for both, no panic.",
     level_text="Theorems (Properties/C10.v): the tagged call is answered once, by the execution its item was bound to, whose ExecStart follows the "
                "call's first step; answered <= issued always and = issued in terminal states, nothing in flight, key not in the map (forced resolve "
                "included); every run terminates and a terminal state is reachable from every state; every call of either style is followed by an "
